@@ -145,6 +145,7 @@ class SimLoop(base_events.BaseEventLoop):
     """virtual-time event loop of one simulated OS process"""
 
     ITER_COST = 20e-6     # virtual seconds one loop iteration takes
+    max_iterations = 40_000   # per run; a run that needs more is reported, not awaited
 
     def __init__(self, world, name="p0", endpoint_factory=None):
         super().__init__()
@@ -235,6 +236,9 @@ class SimLoop(base_events.BaseEventLoop):
         world = self.world
         tape = world.tape
         self.iterations += 1
+        if self.iterations > self.max_iterations:
+            raise SimStall(f"{self.name}: more than {self.max_iterations} loop iterations "
+                           f"in one run (virtual time {world.now:.3f}s)")
         if self._ready_fds is None:
             self._ready_fds = []
         if self.yield_hook is not None:
@@ -319,9 +323,10 @@ class SimLoop(base_events.BaseEventLoop):
         world.now += self.ITER_COST
 
     # -- running -------------------------------------------------------------------
-    def run_coro(self, coro, max_iterations=2_000_000):
+    def run_coro(self, coro, max_iterations=None):
         """run `coro` to completion on this loop (single-process simulations)"""
-        self._max_iterations = max_iterations
+        if max_iterations:
+            self.max_iterations = max_iterations
         asyncio.set_event_loop(self)
         try:
             return self.run_until_complete(coro)
